@@ -74,3 +74,14 @@ Theorem C20_child_fresh_after_refresh :
     fst (hquery s w) = spec_q (h_filt s) (h_vals s) w.
 Proof. exact child_fresh. Qed.
 Print Assumptions C20_child_fresh_after_refresh.
+
+(* Features of mapped basins (BasinProxyFeature): for every basin map
+   (identity, subset, repeats, permutation, same length touching both ends, ...)
+   and every order of reading the data and asking for summaries, min/max/mean
+   are the NaN-ignoring summaries of the mapped events. *)
+Theorem C20_mapped_basin_history :
+  forall (bm : list Z) (vals : list fv) (ops : list hop) (w : Z),
+    forallb is_rq ops = true ->
+    fst (hquery (hrun (binit bm vals) ops) w) = spec_b bm vals w.
+Proof. exact basin_history. Qed.
+Print Assumptions C20_mapped_basin_history.
